@@ -120,8 +120,9 @@ func checkC16(c C16Case) *Failure {
 			*ws[1].Value = lib.MustNew([]int{c.O}, rd.NewB, true)
 			replaced++
 		}
-		// the parameters the layer must be using now, read through the pointers
-		wT, bT := *fc.Weights()[0].Value, *fc.Weights()[1].Value
+		// the parameters the layer must be using now, read through the same pointers (no extra
+		// Weights() call: a layer that refreshes internal state only there must not be helped)
+		wT, bT := *ws[0].Value, *ws[1].Value
 		wS, wV, err := lib.Read(wT)
 		if err != nil || len(wS) != 1 || wS[0] != c.O {
 			return failf("round %d: weight tensor has shape %v, expected [%d] (%v)", ri, wS, c.O, err)
